@@ -236,7 +236,8 @@ pub fn render(spec: &EnumSpec) -> String {
         }
     }
     o.push_str("    ]\n}\n");
-    if fieldless {
+    // callable in const context when no variant that from_repr can produce carries data
+    if spec.variants.iter().all(|v| v.disabled || v.kind.is_unit()) {
         o.push_str("const _CONST_CALLABLE: Option<EC> = EC::from_repr(0);\n");
     }
     o.push_str(&format!(
